@@ -149,11 +149,8 @@ example : isPerm [2, 0, 1] 3 = true := by decide
 
 /-- **text pin**: the generated functions this property's hand-written model describes have, in
     /repo today, exactly the text the model was written from (`Soa/Model/Pinned.lean`) -/
-theorem bodies_pinned :
-    Soa.Extracted.bodies.filter (fun r => Soa.Model.scopeOf r == "C07") =
-    Soa.Model.pinned.filter (fun r => Soa.Model.scopeOf r == "C07") := by decide +kernel
+theorem bodies_pinned : Soa.Extracted.bodies_C07 = Soa.Model.pinned_C07 := rfl
 
-theorem bodies_pinned_nonempty :
-    (Soa.Model.pinned.filter (fun r => Soa.Model.scopeOf r == "C07")).length ≥ 4 := by decide +kernel
+theorem bodies_pinned_nonempty : Soa.Model.pinned_C07.length ≥ 4 := by decide
 
 end Soa.C07
